@@ -171,7 +171,7 @@ def oracle(case: dict, res: dict) -> list[tuple[str, str]]:
 
 
 def run(run: core.Run) -> int:
-    n = 400 if run.tier == "quick" else 40000
+    n = 3000 if run.tier == "quick" else 40000
     prep = core.lean_prepare(MODULES)
     aud = core.audit(THEOREMS, MODULES) if prep["proofs_ok"] else {"obligations": len(THEOREMS), "discharged": 0, "ok": False, "theorems": {}}
     compiled = compiled_maps()
